@@ -69,7 +69,13 @@ type C14Payload struct {
 	// PriorFail (ParseFile only): the same IniParser has been asked before to read
 	// the same path, which then held a document that is rejected while it is applied
 	// (an unknown section); the file has been corrected since.
-	PriorFail  bool `json:"prior_fail,omitempty"`
+	PriorFail bool `json:"prior_fail,omitempty"`
+	// PriorBad: the same IniParser has read before, as defaults, a document whose
+	// only entry gives an unconvertible value to an option that the judged
+	// document sets properly (the rejected entry must leave nothing behind).
+	PriorBad BStr `json:"prior_bad,omitempty"`
+	// Stream (ParseFile only): the path is a pipe or device, whose size is not known beforehand
+	Stream     bool `json:"stream,omitempty"`
 	Stores     []Op `json:"stores,omitempty"`
 	IniOpts    uint `json:"ini_opts,omitempty"`
 	CrashAfter int  `json:"crash_after,omitempty"`
@@ -630,10 +636,25 @@ func (propC14) Gen(r *Rng, idx int, tier string) *Scenario {
 	if cr.Chance(1, 6) && !p.LateIgnore {
 		p.PriorLines = cr.Range(1, 9)
 	}
-	if fr := r.Fork("priorfail"); fr.Chance(1, 5) && p.ViaFile && !p.LateIgnore && p.PriorLines == 0 {
+	p.Stream = p.ViaFile && r.Fork("stream").Chance(1, 5)
+	if br := r.Fork("priorbad"); br.Chance(1, 6) && p.Source == "structured" && !p.LateIgnore && p.PriorLines == 0 {
+		var cands []C14Entry
+		for _, e := range p.Entries {
+			bk := baseKind(e.Kind)
+			if !isFuncKind(e.Kind) && !isMapKind(e.Kind) && (strings.Contains(bk, "int") || strings.Contains(bk, "float") || bk == "duration") {
+				cands = append(cands, e)
+			}
+		}
+		if len(cands) > 0 {
+			e := cands[br.Intn(len(cands))]
+			p.PriorBad = BStr("[" + e.Section + "]\n" + e.Key + " = notanumber\n")
+			p.AsDefaults = true
+		}
+	}
+	if fr := r.Fork("priorfail"); fr.Chance(1, 5) && p.ViaFile && !p.LateIgnore && p.PriorLines == 0 && p.PriorBad == "" {
 		p.PriorFail = true
 	}
-	if lr := r.Fork("lategroup"); lr.Chance(1, 6) && !p.LateIgnore && p.PriorLines == 0 && len(sc.Decl.Groups) > 0 && !p.PriorFail {
+	if lr := r.Fork("lategroup"); lr.Chance(1, 6) && !p.LateIgnore && p.PriorLines == 0 && len(sc.Decl.Groups) > 0 && !p.PriorFail && p.PriorBad == "" {
 		p.LateGroup = sc.Decl.Groups[lr.Intn(len(sc.Decl.Groups))].Name
 	}
 	if cr.Chance(1, 3) && len(text) > 0 {
@@ -821,6 +842,7 @@ func c14Read(sc *Scenario, data string, chunks []simrt.ReadStep, rest int, viaFi
 		op.FailWith = strings.HasSuffix(chunks[0].Err, "+with")
 	}
 	if viaFile {
+		s2.World.StreamFiles = sc.C14 != nil && sc.C14.Stream
 		s2.World.Files = map[string]BStr{"in.ini": BStr(data)}
 		op.File = "in.ini"
 	} else {
@@ -836,7 +858,10 @@ func c14Read(sc *Scenario, data string, chunks []simrt.ReadStep, rest int, viaFi
 		s2.Decl = &d2
 		s2.Ops = []Op{{Kind: "iniread", Data: BStr("[" + sc.C14.LateGroup + "]\nnot-yet = 1\n")}, {Kind: "addgroup"}, op}
 	}
-	if sc.C14 != nil && sc.C14.PriorFail && viaFile && sc.C14.PriorLines == 0 && !sc.C14.LateIgnore && sc.C14.LateGroup == "" {
+	if sc.C14 != nil && sc.C14.PriorBad != "" && sc.C14.PriorLines == 0 && !sc.C14.LateIgnore && sc.C14.LateGroup == "" {
+		s2.Ops = []Op{{Kind: "iniread", Data: sc.C14.PriorBad, AsDefaults: true}, op}
+	}
+	if sc.C14 != nil && sc.C14.PriorFail && sc.C14.PriorBad == "" && viaFile && sc.C14.PriorLines == 0 && !sc.C14.LateIgnore && sc.C14.LateGroup == "" {
 		// first the path holds a document that is rejected, then (Data set on a file
 		// read: the file is rewritten first) the document to be judged
 		bad := Op{Kind: "iniread", File: "in.ini", AsDefaults: op.AsDefaults}
@@ -1225,6 +1250,13 @@ func (propC14) Reductions(sc *Scenario) []func(*Scenario) bool {
 				return false
 			}
 			s.C14.PriorFail = false
+			return true
+		},
+		func(s *Scenario) bool {
+			if s.C14.PriorBad == "" {
+				return false
+			}
+			s.C14.PriorBad = ""
 			return true
 		},
 		func(s *Scenario) bool { s.C14.TailNoise = nil; return true },
